@@ -21,11 +21,25 @@ def _build_tm(scn):
     from reamber.algorithms.timing.utils.BpmChangeSnap import BpmChangeSnap
     from reamber.algorithms.timing.utils.BpmChangeOffset import BpmChangeOffset
     from reamber.algorithms.timing.utils.snap import Snap
+    from reamber.algorithms.timing.utils.Snapper import Snapper
     G = scn["G"]
-    if scn.get("entry") == "offset":
+    if scn.get("entry") in ("offset", "ctor_unsorted"):
         # offset form emitted by TLC (StartTicks of every change)
         bco = [BpmChangeOffset(_bpm(c["bl"]), c["met"], ms(s)) for c, s in zip(scn["tl"], scn["starts"])]
+        if scn["entry"] == "ctor_unsorted":
+            # plain dataclass constructor with the changes in reverse order
+            return TimingMap(bpm_changes_offset=list(reversed(bco)))
         return TimingMap.from_bpm_changes_offset(bco)
+    if scn.get("entry") == "edit_last":
+        # history: build with another tempo on the last change, query once, then re-time it in place
+        tl0 = [dict(c) for c in scn["tl"]]
+        bcs = [BpmChangeSnap(_bpm(c["bl"]) * (1.5 if i == len(tl0) - 1 else 1), c["met"],
+                             Snap(c["m"], Fraction(c["b"], G), c["met"])) for i, c in enumerate(tl0)]
+        tm = TimingMap.from_bpm_changes_snap(ms(scn["t0"]), bcs, reseat=False)
+        tm.offsets([Snap(0, Fraction(0), tl0[0]["met"])])
+        tm.snaps([ms(scn["t0"])], Snapper())
+        tm.bpm_changes_offset[-1].bpm = _bpm(tl0[-1]["bl"])
+        return tm
     bcs = [BpmChangeSnap(_bpm(c["bl"]), c["met"], Snap(c["m"], Fraction(c["b"], G), c["met"]))
            for c in scn["tl"]]
     return TimingMap.from_bpm_changes_snap(ms(scn["t0"]), bcs, reseat=False)
@@ -59,7 +73,8 @@ def exec_c10(scn) -> list[dict]:
         r["out"] = [ticks(b.offset) for b in tm.bpm_changes_offset]
     except Exception as e:
         r["out"], r["exc"] = [], exc_name(e)
-    recs.append(r)
+    if scn.get("entry") != "ctor_unsorted":   # the raw constructor keeps the caller's order until first use
+        recs.append(r)
     if tm is None:
         return recs
     # -- offsets(snaps) ---------------------------------------------------------------------
@@ -74,7 +89,7 @@ def exec_c10(scn) -> list[dict]:
             r["out"], r["exc"] = [], exc_name(e)
         recs.append(r)
     # -- snaps(offsets) and back -----------------------------------------------------------
-    snapper = Snapper()
+    snapper = Snapper(divisions=scn["divs"]) if scn.get("divs") else Snapper()
     for n, ts in enumerate(scn.get("times", [])):
         r = _base(scn, "snaps", n)
         r["ts"] = list(ts)
@@ -152,13 +167,15 @@ def expand_tl(scn, idx, maxq, tier):
     for n in range(0, maxq + 1):
         tuples.extend(product(pos, repeat=n))
     out = []
-    for entry in ("snap", "offset"):
+    for entry in ("snap", "offset", "ctor_unsorted", "edit_last"):
         s = {"kind": "tl", "id": f"mc{idx}{entry[0]}", "cls": "grid", "G": G, "t0": scn["t0"], "tl": tl,
              "starts": scn["starts"], "entry": entry}
         if entry == "snap":
             s["queries"] = [list(t) for t in tuples]
-        else:
+        elif entry == "offset":
             s["queries"] = [list(t) for t in tuples if len(t) == maxq][::7]
+        else:
+            s["queries"] = [list(t) for t in tuples if len(t) == maxq][(3 if entry[0] == "c" else 5)::11]
         # times on the grid: every start plus j granules, and a few off-grid ticks
         times, r = [], rng(f"c10-{idx}")
         grid = []
@@ -213,8 +230,21 @@ def random_scenarios(n, tier):
             if q and r.random() < 0.3:
                 q.append(q[0])  # duplicate
             qs.append(q)
-        out.append({"kind": "tl", "id": f"rnd{i}", "cls": "random", "G": G, "t0": t0, "tl": tl,
-                    "entry": "snap", "queries": qs, "_mk_times": True})
+        scn = {"kind": "tl", "id": f"rnd{i}", "cls": "random", "G": G, "t0": t0, "tl": tl,
+               "entry": "snap", "queries": qs, "_mk_times": True}
+        if i % 5 == 0:
+            # caller-supplied snapper on a grid the default one cannot represent
+            scn["G"], scn["divs"] = 128, [1, 2, 4, 8, 16, 32, 64, 128]
+            for c in tl:
+                c["bl"] = 128 * (c["bl"] // 128)
+                # change positions stay on the 1/16-beat grid (the TimingMap derives them with its own default snapper)
+                c["b"] = (min(c["b"] * 128 // G, c["met"] * 128 - 1) // 8) * 8 if not seated else 0
+            tl.sort(key=lambda c: (c["m"], c["b"]))
+            ok = all((a["m"], a["b"]) < (b["m"], b["b"]) for a, b in zip(tl, tl[1:]))
+            scn["queries"] = [[(qm, qb * 128 // G) for qm, qb in q] for q in qs]
+            if not ok:
+                continue
+        out.append(scn)
     return out
 
 
